@@ -760,6 +760,61 @@ def run(R: Run):
         thr_case(nm, B, (Fr(0),) * 4, Fr(1), Fr(1), tagA="1", tagB="2")
         thr_case(nm, B, (Fr(0),) * 4, Fr(1), Fr(1), tagA="N", tagB="2")
         thr_case(nm, B, (Fr(0),) * 4, Fr(1), Fr(1), tagA="N", tagB="N")
+    # ---- every op that takes `tol`, with NON-default tolerances: offsets at tol*{0.3, 3} (and just around tol)
+    # two-sided acceptance (accepted <=> sub-pixel offset < tol), exact value, and the pixel-set meaning of the ROI
+    zero_bases = [("north-up", (1, 0, 0, 0, -1, 0)), ("mirror-x", (-1, 0, 0, 0, -1, 0)), ("south-up", (2, 0, 0, 0, 2, 0)),
+                  ("rot90", (0, -1, 0, 1, 0, 0)), ("rot45", (1, -1, 0, 1, 1, 0)), ("shear", (1, 1, 0, 0, 1, 0)),
+                  ("fine", (Fr(1, 4), 0, 0, 0, Fr(-1, 4), 0))]
+    TOLS2 = [1e-12, 1e-10, 1e-6, 1e-4, 1e-2, 0.5, 0.25, 3e-9]
+
+    def dy(v, bits=50):
+        return Fr(round(Fr(v) * 2**bits), 2**bits)
+
+    def tol_case(nm, B, tx, ty, tol, shape=(3, 4)):
+        B = tuple(Fr(v) for v in B)
+        ref = mk_gbox(B, 5, 6, "1")
+        g = mk_gbox(fa_mul(B, fa_T(tx, ty)), shape[0], shape[1], "1")
+        if ref is None or g is None or not exact_pair(g, ref):
+            stats["inexact-skipped"] += 1
+            return
+        sub = max(abs(Fr(v) - round(Fr(v))) for v in (tx, ty))
+        accept = sub < Fr(tol)
+        sg = f"tol={tol:g}|" + ("accept" if accept else "reject")
+        ga, gr = enc_gbox(g), enc_gbox(ref)
+        case = {"op": "tol", "a": gb_dict(ref), "b": gb_dict(g), "tol": tol}
+        out = R.corr(f"c16 bbpd {ga} {gr} {frac_s(tol)}",
+                     real(lambda: enc_bb(GBm.bounding_box_in_pixel_domain(g, ref, tol))), sig=f"bbpd-tol|{nm}|{sg}")
+        R.oracle(out.startswith("ERR") != accept, "tol-acceptance", {**case, "fn": "bounding_box_in_pixel_domain"},
+                 f"bounding_box_in_pixel_domain(tol={tol!r}) gave {out}; sub-pixel offset {float(sub)!r}: "
+                 f"{'must be accepted' if accept else 'must be rejected'}", sig="tol-accept|bbpd")
+        if accept and not out.startswith("ERR"):
+            kx, ky = round(Fr(tx)), round(Fr(ty))
+            want_bb = f"{kx};{ky};{kx + shape[1]};{ky + shape[0]};N"
+            R.oracle(out == want_bb, "bbox-in-pixel-domain-value", {**case}, f"gave {out}, exact is {want_bb}")
+        res = []
+
+        def fr():
+            o = ref.overlap_roi(g, tol)
+            res.append(o)
+            return enc_roi(o)
+
+        out = R.corr(f"c16 roi {gr} {ga} {frac_s(tol)}", real(fr), sig=f"roi-tol|{nm}|{sg}")
+        R.oracle(out.startswith("ERR") != accept, "tol-acceptance", {**case, "fn": "overlap_roi"},
+                 f"overlap_roi(tol={tol!r}) gave {out}; sub-pixel offset {float(sub)!r}: "
+                 f"{'must be accepted' if accept else 'must be rejected'}", sig="tol-accept|roi")
+        if accept and res:
+            oracle(chk_roi(ref, g, res[0], Fr(tol)), "overlap-roi-not-shared-pixels", {**case, "op": "roi-tol"}, sig="roi|tol")
+
+    for nm, B in zero_bases:
+        for tol in TOLS2:
+            es = [dy(Fr(tol) * Fr(3, 10)), dy(Fr(tol) * 3), dy(Fr(tol) * Fr(9, 10)), dy(Fr(tol) * Fr(11, 10))]
+            for e in es:
+                for sgn in (1, -1):
+                    for n_, m_ in ((0, 2), (2, -1), (-5, 0)):
+                        tol_case(nm, B, n_ + sgn * e, Fr(m_), tol)
+                        tol_case(nm, B, Fr(m_), n_ + sgn * e, tol)
+                    tol_case(nm, B, 1 + sgn * e, -2 - sgn * e, tol)
+
     # degenerate reference (TransformNotInvertibleError)
     for coeff in [(1, 1, 0, 1, 1, 0), (0, 0, 1, 0, 0, 2), (2, 0, 0, 0, 0, 0)]:
         ref = GeoBox((2, 2), Affine(*map(float, coeff)), crs_of("1"))
@@ -1211,10 +1266,139 @@ def float_stream(R: Run, oracle, stats):
         except Exception as e:  # pylint: disable=broad-except
             R.oracle(False, "enclosing-raises", {"g": gb_dict(g), "bbox": list(region.bbox)}, f"raised {e!r}")
     cross_crs_enclosing(R)
+    tol_and_snap_float_stream(R)
     # recorded finding K3 (one deterministic case): the curved image of an edge is not covered
     ok, what = curved_edge_case(utm, (13.0, 60.0, 17.0, 60.5))
     R.oracle(ok, "enclosing-cross-crs-curved-edge", {"op": "encl-curved", "g": gb_dict(utm), "bbox": [13.0, 60.0, 17.0, 60.5],
                                                      "crs": "EPSG:4326"}, what, sig="float|encl|curved-edge")
+
+
+def tol_and_snap_float_stream(R: Run):
+    """oracle-only (realistic doubles; exact Fractions on the real outputs, 1e-6 px slack):
+    (a) ops taking `tol`, non-default tol x offsets at tol*{0.3, 3} on realistic grids;
+    (b) snap_to / & / | on rotated and sheared grids whose partner is displaced by WORLD-axis multiples of the pixel
+        size (k*res east, m*res north: in general NOT a whole-pixel shift on a rotated grid) and by pixel-space
+        fractions on finer lattices (tenths, thirds, sevenths)."""
+    from affine import Affine
+    from odc.geo import geobox as GBm
+    from odc.geo.geobox import GeoBox
+
+    rng = R.rng
+    SL = Fr(1, 10**6)
+    crs = crs_of("1")
+    p = inspect.signature(np.isclose).parameters
+    t1, t0 = Fr(p["atol"].default + p["rtol"].default), Fr(p["atol"].default)
+    tp = Fr(1e-8)
+
+    def pyth(pq, k, flip):
+        a_, b_ = pq
+        return Affine(a_ * k, (b_ if flip else -b_) * k, 0.0, b_ * k, (-a_ if flip else a_) * k, 0.0)
+
+    def bases():
+        r = rng.random()
+        c, f = rng.choice([(5000.0, 9000.0), (399960.0, 7100040.0), (1.5e6 + rng.random(), -4e6), (0.0, 0.0)])
+        cd, fd = rng.choice([(147.25, -35.5), (0.0, 0.0), (-180.0, 90.0), (13.0 + rng.random(), 60.0)])  # degrees
+        if r < 0.35:   # Pythagorean rotations: integer coefficients, pixel size 5k / 13k / 17k exactly
+            pq, h = rng.choice([((3, 4), 5), ((4, 3), 5), ((5, 12), 13), ((12, 5), 13), ((8, 15), 17), ((15, 8), 17)])
+            k = rng.choice([1, 2, 6, 0.5])
+            return "pyth", Affine.translation(c, f) * pyth(pq, k, rng.random() < 0.5), h * k
+        if r < 0.6:
+            res = rng.choice([10.0, 30.0, 5.0, 0.00025])
+            ang = rng.choice([30, 45, -12.5, 17.3, 60, 200.0])
+            if res < 1:
+                c, f = cd, fd
+            return "rot", Affine.translation(c, f) * Affine.rotation(ang) * Affine.scale(res, -res), res
+        if r < 0.8:
+            res = rng.choice([10.0, 30.0, 2.0])
+            return "shear", Affine.translation(c, f) * Affine(res, res * rng.choice([0.3, 0.5, 1 / 3, -0.7]), 0, 0, -res, 0), res
+        res = rng.choice([10.0, 30.0, 0.00025])
+        if res < 1:
+            c, f = cd, fd
+        return "axis", Affine(res * rng.choice([1, -1]), 0, c, 0, -res, f), res
+
+    def judge_pair(a, b, label):
+        case = {"op": "snap", "a": gb_dict(a), "b": gb_dict(b), "float": True}
+        M = fa_mul(fa_inv(fa(a.affine)), fa(b.affine))
+        sub = max(abs(v - round(v)) for v in (M[2], M[5]))
+        same_lin = abs(M[0] - 1) <= SL and abs(M[4] - 1) <= SL and abs(M[1]) <= SL and abs(M[3]) <= SL
+        if not same_lin:
+            return
+        # 1. snap_to: <= 1/2 px, lands on b's grid, and the follow-up set operations work
+        try:
+            sn = a.snap_to(b)
+        except Exception as e:  # pylint: disable=broad-except
+            R.oracle(False, "snap-raises", case, f"{label}: snap_to raised {e!r}")
+            return
+        ok, what = chk_snap(a, b, sn, SL)
+        R.oracle(ok, "snap-half-pixel-onto-grid", case, f"{label}: {what}", sig="float|snap-world|" + label.split(":")[0])
+        if ok:
+            for nm, f in (("&", lambda: sn & b), ("|", lambda: sn | b), ("overlap_roi", lambda: sn.overlap_roi(b))):
+                out = guarded(lambda: str(f()))
+                R.oracle(not out.startswith("ERR"), "snap-followup-raises", {**case, "followup": nm},
+                         f"{label}: a.snap_to(b) {nm} b raised {out} (offset before snapping {float(M[2])}, {float(M[5])} px)",
+                         sig="float|snap-followup")
+        # 2. & | overlap_roi directly: accepted <=> whole-pixel shift (keep clear of the 1e-8 threshold)
+        if sub < Fr(1, 10**10) or sub > Fr(1, 10**6):
+            accept = sub < tp
+            for nm, f in (("&", lambda: a & b), ("|", lambda: a | b), ("overlap_roi", lambda: a.overlap_roi(b))):
+                out = guarded(lambda: str(f()))
+                R.oracle(out.startswith("ERR") != accept, "incompatible-grid-acceptance",
+                         {"op": nm, "a": gb_dict(a), "b": gb_dict(b), "float": True},
+                         f"{label}: a {nm} b gave {out[:60]}; pixel offset of b in a is ({float(M[2])}, {float(M[5])})",
+                         sig="float|world-accept")
+            if accept:
+                try:
+                    R.oracle(*(lambda r_: (r_[0], "inter-not-shared-pixels", {"op": "and", "a": gb_dict(a), "b": gb_dict(b), "float": True}, r_[1]))(chk_inter([a, b], a & b, SL)))
+                    R.oracle(*(lambda r_: (r_[0], "union-not-smallest-containing", {"op": "or", "a": gb_dict(a), "b": gb_dict(b), "float": True}, r_[1]))(chk_union([a, b], a | b, SL)))
+                except Exception as e:  # pylint: disable=broad-except
+                    R.oracle(False, "common-grid-op-raises", case, f"{label}: raised {e!r}")
+
+    for it in range(R.pick(350, 3500)):
+        kind, A, res = bases()
+        a = GeoBox((rng.randint(1, 80), rng.randint(1, 80)), A, crs)
+        shp = (rng.randint(1, 60), rng.randint(1, 60))
+        mode = it % 4
+        if mode == 0:      # WORLD-axis multiples of the pixel size
+            e_, n_ = rng.choice([(1, 0), (0, 1), (3, -2), (40, 25), (-7, 0), (0, -11), (2, 2)])
+            b = GeoBox(shp, Affine.translation(e_ * res, n_ * res) * A, crs)
+            judge_pair(a, b, f"{kind}-world: b = a moved {e_}*res east, {n_}*res north")
+        elif mode == 1:    # pixel-space fractions on finer lattices
+            d_ = rng.choice([10, 3, 7, 5, 6])
+            px, py = rng.randint(-30, 30) / d_, rng.randint(-30, 30) / d_
+            b = GeoBox(shp, A * Affine.translation(px, py), crs)
+            judge_pair(a, b, f"{kind}-frac: b = a moved ({px}, {py}) px")
+        elif mode == 2:    # whole-pixel shifts along the (rotated) pixel axes
+            i_, j_ = rng.randint(-50, 50), rng.randint(-50, 50)
+            b = GeoBox(shp, A * Affine.translation(i_, j_), crs)
+            judge_pair(a, b, f"{kind}-whole: b = a moved ({i_}, {j_}) px")
+        else:              # (a) non-default tol on realistic grids
+            tol = rng.choice([1e-6, 1e-4, 1e-2, 0.5, 0.25])
+            fac = rng.choice([0.3, 3.0, 0.3, 3.0, 0.9, 1.1])
+            e = tol * fac * rng.choice([1, -1])
+            i_, j_ = rng.randint(-50, 50), rng.randint(-50, 50)
+            onx = rng.random() < 0.5
+            b = GeoBox(shp, A * Affine.translation(i_ + (e if onx else 0), j_ + (0 if onx else e)), crs)
+            M = fa_mul(fa_inv(fa(a.affine)), fa(b.affine))
+            sub = max(abs(v - round(v)) for v in (M[2], M[5]))
+            if abs(sub - Fr(tol)) < Fr(tol) / 50:   # float construction too close to the threshold
+                continue
+            accept = sub < Fr(tol)
+            case = {"op": "tol", "a": gb_dict(a), "b": gb_dict(b), "tol": tol, "float": True}
+            for fn, f in (("overlap_roi", lambda: a.overlap_roi(b, tol)),
+                          ("bounding_box_in_pixel_domain", lambda: GBm.bounding_box_in_pixel_domain(b, a, tol))):
+                res_ = []
+
+                def ff():
+                    res_.append(f())
+                    return "ok"
+
+                out = guarded(ff)
+                R.oracle(out.startswith("ERR") != accept, "tol-acceptance", {**case, "fn": fn},
+                         f"{fn}(tol={tol!r}) gave {out}; sub-pixel offset {float(sub)!r}: "
+                         f"{'must be accepted' if accept else 'must be rejected'}", sig="float|tol-accept|" + kind)
+                if accept and res_ and fn == "overlap_roi":
+                    ok, what = chk_roi(a, b, res_[0], Fr(tol) + SL)
+                    R.oracle(ok, "overlap-roi-not-shared-pixels", {**case, "op": "roi-tol"}, what, sig="float|roi-tol")
 
 
 def cross_crs_enclosing(R: Run):
@@ -1376,6 +1560,30 @@ def eval_case(key, case, verbose=False):
         a, b, c = gs[:3]
         ok3 = same_gbox((a | b) | c, a | (b | c), sl) and same_gbox((a & b) & c, a & (b & c), sl)
         return ok1 and ok2 and ok3, "; ".join(x for x in (w1, w2, "" if ok3 else "not associative") if x)
+    if case.get("op") in ("tol", "roi-tol"):
+        from odc.geo import geobox as GBm
+
+        a, b, tol = gb_from(case["a"]), gb_from(case["b"]), case["tol"]
+        M = fa_mul(fa_inv(fa(a.affine)), fa(b.affine))
+        sub = max(abs(v - round(v)) for v in (M[2], M[5]))
+        accept = sub < Fr(tol)
+        bad = []
+        for fn, f in (("overlap_roi", lambda: a.overlap_roi(b, tol)),
+                      ("bounding_box_in_pixel_domain", lambda: GBm.bounding_box_in_pixel_domain(b, a, tol))):
+            try:
+                o = f()
+                say(f"{fn}(tol={tol!r}) =", o)
+                if not accept:
+                    bad.append(f"{fn} accepted a sub-pixel offset of {float(sub)!r} px with tol {tol!r}")
+                elif fn == "overlap_roi":
+                    ok_, w_ = chk_roi(a, b, o, Fr(tol) + sl)
+                    if not ok_:
+                        bad.append(w_)
+            except ValueError as e:
+                say(f"{fn}(tol={tol!r}) raised", repr(e))
+                if accept:
+                    bad.append(f"{fn} rejected a sub-pixel offset of {float(sub)!r} px although tol is {tol!r}")
+        return (not bad, "; ".join(bad))
     if case.get("op") == "encl-region":
         g = gb_from(case["g"])
         region = region_from(case["region"])
@@ -1393,7 +1601,13 @@ def eval_case(key, case, verbose=False):
         a, b = gb_from(case["a"]), gb_from(case["b"])
         r = a.snap_to(b)
         say("a.snap_to(b) =", r)
-        return chk_snap(a, b, r, sl)
+        ok_, w_ = chk_snap(a, b, r, sl)
+        if ok_ and key == "snap-followup-raises":
+            try:
+                _ = (r & b, r | b, r.overlap_roi(b))
+            except Exception as e:  # pylint: disable=broad-except
+                return False, f"follow-up set operation on a.snap_to(b) and b raised {e!r}"
+        return ok_, w_
     return None
 
 
